@@ -45,6 +45,8 @@ pub fn generate(
     ctx: &Context,
     constr: &mut ConstrBuilder,
 ) -> Constrained {
+    #[cfg(feature = "verif")]
+    crate::verif_hooks::bump(7);
     match &ast.node {
         Block { statements } => gen_vec(statements, env, true, ctx, constr),
 
